@@ -5,7 +5,7 @@
        history-free names),
    2 = the specification holds on the observations but model and implementation differ (tie broken),
    3 = malformed case (harness error: table entry or observation outside the modelled grammar). *)
-Require Import Hdl21.Base.PyInt Hdl21.Model.ParamName Hdl21.Model.GenCache Hdl21.Model.GenUniverse Hdl21.Corr.C03.
+Require Import Hdl21.Base.PyInt Hdl21.Model.ParamName Hdl21.Model.GenCache Hdl21.Model.C09GenFail Hdl21.Model.GenUniverse Hdl21.Corr.C03.
 From Coq Require Import String Ascii.
 Open Scope string_scope.
 Open Scope Z_scope.
@@ -14,11 +14,12 @@ Open Scope Z_scope.
 Inductive cobs := ORej | OAcc (mid : nat) (name : string).   (* identity (numbered by first appearance), .name at return *)
 Record hobs := {
   h_calls : list rawcall;
-  h_obs : list cobs;                       (* one per executed call; a rejection is the last entry *)
+  h_obs : list cobs;                       (* one per call: a rejected call (the exception is caught) is followed by the next one *)
   h_final : list (nat * string * string);  (* per module: .name at the end of the history, name in the exported package *)
   h_runs2 : list (nat * list pval);        (* body executions in order: generator, parameters as the body saw them
                                               (level 2: the field values of the validated instance, numbers as written) *)
-  h_exported : bool                        (* a design instantiating every returned module was exported *)
+  h_exported : bool;                       (* a design instantiating every returned module was exported *)
+  h_clean : bool                           (* Cache.pending and Cache.stack are empty at the end of the history *)
 }.
 Record gcase := { c_univ : list gen; c_table : list entry; c_hists : list hobs }.
 
@@ -53,9 +54,19 @@ Fixpoint accepted (U : list gen) (h : hobs) (cs : list rawcall) (os : list cobs)
                                                (the model check reports the difference) *)
       | _, _, _ => None                     (* a returned module without a final name: malformed observation *)
       end
-  | _ :: _, ORej :: _ => Some []
+  | _ :: cs', ORej :: os' => accepted U h cs' os'
   | [], _ :: _ => None
   end.
+
+(* the keys of the refused calls of a history (a call whose arguments do not validate has no key) *)
+Fixpoint rejected (U : list gen) (cs : list rawcall) (os : list cobs) : list key :=
+  match cs, os with
+  | c :: cs', ORej :: os' => match mk_key U c with Ok k => k :: rejected U cs' os' | Error _ => rejected U cs' os' end
+  | _ :: cs', OAcc _ _ :: os' => rejected U cs' os'
+  | _, _ => []
+  end.
+
+Definition count_key (k : key) (l : list key) : nat := List.length (filter (key_eqb k) l).
 
 Definition hex_char (a : ascii) : bool := has_char a "0123456789abcdef".
 Definition is_digest (s : string) : bool := all_chars hex_char s && Nat.eqb (String.length s) 32.
@@ -73,13 +84,24 @@ Definition spec_hist (U : list gen) (T : list entry) (h : hobs) : bool :=
       all_pairs (fun a b => match origin_c U T (a_key a), origin_c U T (a_key b) with
                             | Some x, Some y => Bool.eqb (key_eqb x y) (Nat.eqb (a_mid a) (a_mid b))
                             | _, _ => true end) accs &&
-      (* the body ran once per parameter value, and did run for every accepted call *)
-      all_pairs (fun a b => negb (key_eqb a b)) runs_h &&
-      forallb (fun a => existsb (key_eqb (a_key a)) runs_h) accs &&
+      let rejs := rejected U (h_calls h) (h_obs h) in
+      (* no call, refused or not, leaves anything pending *)
+      h_clean h &&
+      (* no two of the modules the history handed out share a name (whatever their calls were: also calls whose arguments
+         are outside the modelled value grammar) *)
+      all_pairs (fun a b => negb (String.eqb (snd (fst a)) (snd (fst b)))) (h_final h) &&
+      (negb (h_exported h) || all_pairs (fun a b => negb (String.eqb (snd a) (snd b))) (h_final h)) &&
+      (* the body of every accepted call ran exactly once; when nothing was refused no body ran twice at all (a refused
+         call runs its body again when it is repeated - that is what the model says, compared below) *)
+      forallb (fun a => Nat.eqb (count_key (a_key a) runs_h) 1) accs &&
+      (negb (forallb (fun o => match o with ORej => false | _ => true end) (h_obs h)) || all_pairs (fun a b => negb (key_eqb a b)) runs_h) &&
+      (* refused, and refused again: no call is both refused and answered with a module in one interpreter *)
+      forallb (fun a => negb (existsb (key_eqb (a_key a)) rejs)) accs &&
       (* one module <-> one name, at return, at the end, and in the exported package *)
       forallb (fun a => String.eqb (a_ret a) (a_fin a)) accs &&
       all_pairs (fun a b => Bool.eqb (Nat.eqb (a_mid a) (a_mid b)) (String.eqb (a_fin a) (a_fin b))) accs &&
-      (negb (Nat.eqb (List.length accs) (List.length (h_calls h))) || h_exported h) &&
+      (* a design instantiating every module the history handed out can be exported, whatever was refused in between *)
+      (negb (existsb (fun o => match o with OAcc _ _ => true | _ => false end) (h_obs h)) || h_exported h) &&
       (negb (h_exported h) ||
        all_pairs (fun a b => Bool.eqb (Nat.eqb (a_mid a) (a_mid b)) (String.eqb (a_exp a) (a_exp b))) accs)
   end.
@@ -94,7 +116,10 @@ Definition spec_cross (U : list gen) (hs : list hobs) : bool :=
       implb (key_eqb (a_key a) (a_key b))
             (String.eqb (a_fin a) (a_fin b) &&
              (negb (h_exported h1 && h_exported h2) || String.eqb (a_exp a) (a_exp b))))
-      (accs_of U h2)) (accs_of U h1)) hs.
+      (accs_of U h2)) (accs_of U h1) &&
+    (* ... and is refused in every history if it is refused in one (not on call order, process or memory addresses) *)
+    forallb (fun a => negb (existsb (key_eqb (a_key a)) (rejected U (h_calls h2) (h_obs h2)))) (accs_of U h1) &&
+    forallb (fun a => negb (existsb (key_eqb (a_key a)) (rejected U (h_calls h1) (h_obs h1)))) (accs_of U h2)) hs.
 
 (* ---------- model against implementation ---------- *)
 Definition name_matches (U : list gen) (T : list entry) (creator : key) (impl : string) : bool :=
@@ -116,7 +141,7 @@ Fixpoint same_shape (ms : list (option (key * nat))) (os : list cobs) : bool :=
   match ms, os with
   | [], [] => true
   | Some _ :: ms', OAcc _ _ :: os' => same_shape ms' os'
-  | [None], [ORej] => true
+  | None :: ms', ORej :: os' => same_shape ms' os'
   | _, _ => false
   end.
 
@@ -139,9 +164,8 @@ Definition model_hist_ok (U : list gen) (T : list entry) (h : hobs) : bool :=
                                      | _ => true end
                         | None => false end
                     | _ => true end) pairs &&
-  (* body executions, in order (only compared on histories without a rejection) *)
-  (existsb (fun o => match o with ORej => true | _ => false end) (h_obs h) ||
-   (fix eq (a b : list key) : bool :=
+  (* body executions, in order - those of refused calls included *)
+  ((fix eq (a b : list key) : bool :=
       match a, b with [] , [] => true | x :: a', y :: b' => key_eqb x y && eq a' b' | _, _ => false end)
      (rev (runs st)) (h_runs h)).
 
